@@ -895,7 +895,7 @@ class System:
             for i in an:
                 if self._g.in_degree(i) == 0:
                     return self._g[i]._params["name"]
-        return domain
+        return domain[self._parents[n][0]]
 
     def solve(
         self,
@@ -972,13 +972,14 @@ class System:
             names, parent, typ, pwr, loss, trise, tpeak = [], [], [], [], [], [], []
             eff, warn, vsi, iso, vso, isi = [], [], [], [], [], []
             domain, phases, ener, dname, group, rail = [], [], [], "none", [], []
-            sources, dwarns, rail_in, pstate = {}, {}, [], {}
+            sources, dwarns, rail_in, pstate, ndom = {}, {}, [], {}, {}
             show_trise = False
             for n in self._topo_nodes:  # [vi, vo, ii, io]
                 phase_config = self._phase_lkup[n]
                 name = self._g[n]._params["name"]
                 names += [name]
-                dname = self._find_domain(n, dname, v)
+                dname = self._find_domain(n, ndom, v)
+                ndom[n] = dname
                 domain += [dname]
                 phases += [ph]
                 group += [self._g.attrs["groups"][name]]
@@ -1522,7 +1523,7 @@ class System:
             return None
         names, typ, phase = [], [], []
         rs, ii, pwr = [], [], []
-        domain, dname = [], "none"
+        domain, dname, ndom = [], "none", {}
         phase_names = list(self._g.attrs["phases"].keys())
         self._set_phase_lkup()
         src_cnt = 0
@@ -1531,6 +1532,9 @@ class System:
             if tname == "SOURCE":
                 dname = self._g[n]._params["name"]
                 src_cnt += 1
+            else:
+                dname = ndom[self._parents[n][0]]
+            ndom[n] = dname
             ph_names = []
             if tname == "SLOSS":
                 ph_names += ["N/A"]
